@@ -290,6 +290,9 @@ func (e *EndpointInfo) IsReady() bool {
 }
 
 func (e *EndpointInfo) UnreadyReason() string {
+	// reason and message are written by the health check goroutine under the lock
+	e.status.mux.RLock()
+	defer e.status.mux.RUnlock()
 	message := ""
 	if e.status.Disabled {
 		message = fmt.Sprintf("endpoint=%q is disabled.", e.Endpoint)
